@@ -46,4 +46,13 @@ def safeFormat (t : Str) : Except Py.Exc Str :=
   | .ok s => .ok s
   | .error _ => .error .ValueError
 
+/-- the namespace `_check_message_flags` returns, as the model's `Info` (`formats`: the frozenset listed sorted, as `sorted(flags.formats)` reads it) -/
+def infoOf (r : Bool × Nat × Option Nat × List Str) : Msg.Info := ⟨r.1, r.2.1, r.2.2.1, Msg.toSorted Msg.strLt r.2.2.2⟩
+
+/-- `str.join(', ', (f'U+{ord(ch):04X} {encinfo.get_character_name(ch)}' for ch in chars))`; `ValueError` where a character has no name -/
+def ucNames (menv : Msg.Env) (cs : List Nat) : Except Py.Exc Str :=
+  match Msg.ucNames menv.charName cs with
+  | some s => .ok s
+  | none => .error .ValueError
+
 end I18n.MsgPy
